@@ -98,15 +98,38 @@ func firstLineOf(s string) string {
 // runCLIFull runs the binary with the complete option set of o. The input is
 // given with -i (then o.Path must be that file's path: use cliInputPath) or on
 // standard input; the output is read from standard output or from a -o file.
-func runCLIFull(dir, src string, p *spec.Program, o h.Opts, useStdin, useOutFile bool) cliResult {
+func runCLIFull(dir, src string, p *spec.Program, o h.Opts, useStdin, useOutFile bool, modes ...string) cliResult {
 	bin := os.Getenv("PORYSCRIPT_BIN")
 	if bin == "" {
 		return cliResult{Err: fmt.Errorf("PORYSCRIPT_BIN not set")}
 	}
+	has := func(m string) bool {
+		for _, x := range modes {
+			if x == m {
+				return true
+			}
+		}
+		return false
+	}
 	in := cliInputPath(dir)
-	args := []string{"-cc", writeCmdConfig(dir, p), fmt.Sprintf("-optimize=%v", o.Optimize), fmt.Sprintf("-lm=%v", o.LM)}
-	if o.FontPath != "" {
-		args = append(args, "-fc", o.FontPath)
+	args := []string{fmt.Sprintf("-optimize=%v", o.Optimize), fmt.Sprintf("-lm=%v", o.LM)}
+	cc := writeCmdConfig(dir, p)
+	if has("default-config-paths") {
+		// no -cc / -fc: the binary reads command_config.json and font_config.json from its working directory
+		if o.FontPath != "" {
+			b, err := os.ReadFile(o.FontPath)
+			if err != nil {
+				return cliResult{Err: err}
+			}
+			if err := os.WriteFile(filepath.Join(dir, "font_config.json"), b, 0o644); err != nil {
+				return cliResult{Err: err}
+			}
+		}
+	} else {
+		args = append(args, "-cc", cc)
+		if o.FontPath != "" {
+			args = append(args, "-fc", o.FontPath)
+		}
 	}
 	if o.FontID != "" {
 		args = append(args, "-f", o.FontID)
@@ -120,6 +143,9 @@ func runCLIFull(dir, src string, p *spec.Program, o h.Opts, useStdin, useOutFile
 	}
 	sort.Strings(keys)
 	for _, kk := range keys {
+		if has("repeated-switch-keys") {
+			args = append(args, "-s", kk+"=overridden_by_the_later_one")
+		}
 		args = append(args, "-s", kk+"="+o.Switches[kk])
 	}
 	if !useStdin {
@@ -134,6 +160,9 @@ func runCLIFull(dir, src string, p *spec.Program, o h.Opts, useStdin, useOutFile
 		args = append(args, "-o", outFile)
 	}
 	cmd := exec.Command(bin, args...)
+	if has("default-config-paths") {
+		cmd.Dir = dir
+	}
 	var so, se bytes.Buffer
 	cmd.Stdout, cmd.Stderr = &so, &se
 	if useStdin {
